@@ -5,7 +5,6 @@ package vc
 import (
 	"fmt"
 	"go/token"
-	"sort"
 	"strings"
 )
 
@@ -58,6 +57,13 @@ type InputLeaf struct {
 	Term string // SMT term (or arr term for slices)
 	Aux  map[string]string
 	Go   string // Go type string
+	Elems []ElemLeaf // for slices: the heaps holding the element leaves
+}
+
+// ElemLeaf names the initial heap of one leaf of a slice's element type.
+type ElemLeaf struct {
+	Field string // "" or ".f"
+	Heap  string
 }
 
 func newFuncCtx(name string) *FuncCtx {
@@ -152,20 +158,9 @@ func (o *Obligation) Query(forCVC5 bool, wantModel bool) string {
 	}
 	sb.WriteString("(check-sat)\n")
 	if wantModel {
-		var names []string
-		for _, in := range c.inputs {
-			names = append(names, in.Term)
-			keys := make([]string, 0, len(in.Aux))
-			for k := range in.Aux {
-				keys = append(keys, k)
-			}
-			sort.Strings(keys)
-			for _, k := range keys {
-				names = append(names, in.Aux[k])
-			}
-		}
-		if len(names) > 0 {
-			sb.WriteString("(get-value (" + strings.Join(names, " ") + "))\n")
+		terms, _ := o.modelTerms()
+		if len(terms) > 0 {
+			sb.WriteString("(get-value (" + strings.Join(terms, " ") + "))\n")
 		}
 	}
 	return sb.String()
@@ -228,4 +223,29 @@ func pow2str(i int) string {
 		return fmt.Sprintf("%d", uint64(1)<<uint(i))
 	}
 	return "18446744073709551616"
+}
+
+// modelTerms lists the terms whose values are requested from the solver and
+// the keys under which they are stored in Obligation.Model.
+func (o *Obligation) modelTerms() (terms []string, keys []string) {
+	c := o.fn
+	for _, in := range c.inputs {
+		terms = append(terms, in.Term)
+		keys = append(keys, in.Term)
+		for _, k := range []string{"cap", "arr", "off"} {
+			if t, ok := in.Aux[k]; ok {
+				terms = append(terms, t)
+				keys = append(keys, t)
+			}
+		}
+		if in.Kind == "slice" {
+			for _, lf := range in.Elems {
+				for k := 0; k < replaySliceElems; k++ {
+					terms = append(terms, fmt.Sprintf("(select (select %s %s) (+ %s %d))", lf.Heap, in.Aux["arr"], in.Aux["off"], k))
+					keys = append(keys, fmt.Sprintf("%s[%d]%s", in.Path, k, lf.Field))
+				}
+			}
+		}
+	}
+	return
 }
